@@ -118,6 +118,27 @@ Definition to_writers_in_tables : bool :=
   forallb (fun n => match find_fn (List.app ConcGen.cache_methods ConcGen.placeholder_functions) (last_component n) with
                     | Some _ => true | None => false end) to_writers.
 
+(* (4'') the side condition of the projection of ConcSites.v: the agreement lemmas compare the
+   access sequences of the token tables after dropping the READS of RefSchema.To.  That is sound
+   only for a function that never runs without sc.mu.  Demanded here, over the regenerated census:
+   a function of the tables with such a read is none of the functions a codec call can run without
+   entering SchemaCache.Schema (a method of the cache by its full name; a function of the builder
+   by its last name component, whatever its receiver — the stricter reading); an exported method of
+   the cache with such a read is one critical section on its RAW tokens; and To has no writer
+   among the lock-free functions *)
+Definition cache_fn_name (n : string) : string := "j5schema.SchemaCache." ++ n.
+
+Definition lf_has_builder_fn (lf : list string) (n : string) : bool :=
+  existsb (fun q => String.prefix "j5schema." q && String.eqb (last_component q) n) lf.
+
+Definition projected_reads_ok (lf : list string) (ws : list write) : bool :=
+  forallb (fun f => match f with (n, ex, toks) =>
+     negb (has_projected_read toks) ||
+     (negb (in_strs (cache_fn_name n) lf) && (negb ex || entry_locked toks)) end) ConcGen.cache_methods &&
+  forallb (fun f => match f with (n, _, toks) =>
+     negb (has_projected_read toks) || negb (lf_has_builder_fn lf n) end) ConcGen.placeholder_functions &&
+  forallb (fun w => negb (String.eqb (w_target w) "field:j5schema.RefSchema.To") || negb (in_strs (w_fn w) lf)) ws.
+
 (* (5) the long-lived objects hold nothing mutable but the chain to the cache *)
 Definition holder_fields : list string :=
   ["codec.Codec.refl"; "codec.Codec.resolver"; "j5reflect.Reflector.schemaSet";
@@ -194,6 +215,7 @@ Definition census_ok : bool :=
   published_ok ConcStateGen.lk_written_lf_read &&
   lk_writes_to_fresh ConcStateGen.lk_field_writes &&
   to_writers_in_tables &&
+  projected_reads_ok ConcStateGen.lockfree_fns ConcStateGen.state_writes &&
   holders_hold_only_the_cache ConcStateGen.shared_fields &&
   forallb shared_type_ok ConcStateGen.shared_types &&
   boundary_ok ConcStateGen.lockfree_roots ConcStateGen.lockfree_fns ConcStateGen.locked_fns ConcStateGen.schema_callers &&
